@@ -114,6 +114,8 @@ def build_world() -> World:
     s("_pending_send_cancels", SetSort(Ref("Flag")))
     s("_scheduled_sends", DictSort(STR, Callable_))
     s("_actors", DictSort(STR, Interp))
+    s("_processing", BOOL)                    # asyncio engine: an event is being processed (its counterpart of _is_processing)
+    s("_raise_depth", INT)                    # asyncio engine: chained self-raised events since the last external one
     s("task_manager", OPAQUE)                 # asyncio engine: TaskManager (timers / services as asyncio tasks) - not modelled
     s("_event_loop_task", OPAQUE)             # asyncio engine: the consumer task of the event queue
     s("_event_queue", ListSort(Ev))            # collections.deque, modelled as a list (append / popleft / clear)
@@ -362,7 +364,7 @@ def build_world() -> World:
     ua = Contract("model:user_action", [], props=[])
     ua.returns(OPAQUE)
     ua.mod("self.context", "self.status", "self._after_events", "self._after_threads", "self._pending_send_cancels",
-           "self._scheduled_sends", "self._actors", "self._event_queue", "self.g_accepted", "Flag.is_set")
+           "self._scheduled_sends", "self._actors", "self._raise_depth", "self._event_queue", "self.g_accepted", "Flag.is_set")
     _keep = ["forall[Flag](lambda f: implies(old(f.is_set), f.is_set))","status_reach(old(self.status), self.status)",
              "implies(old(self._is_processing), appended_only(old(self._event_queue), old(self.g_accepted), self._event_queue, self.g_accepted))",
              "forall[str](lambda k: implies(k in self._after_events, k in old(self._after_events) and self._after_events[k] == old(self._after_events)[k]))"]
